@@ -108,10 +108,14 @@ CLAIMED["C15"] = dict(
           "assumed at its recursive calls (structural induction, dimension concrete, orders 0..5, both copies): every recursive-call precondition, every narrow/view "
           "side condition and the postcondition (ordered gap-free chain from start to end, empty range gives [], every explicit piece a non-empty slab m x shape[d+1:] "
           "aligned to R_d inside one cell of R_{d-1}, as a narrow/view of the shard) are discharged for all integers; a relational obligation proves the FSDP and HSDP "
-          "copies return identical pieces. Minimality is NOT proved (bounded: exhaustive small shapes vs a DP optimum)."),
+          "copies return identical pieces. Minimality: the code is proved to follow the optimal recurrence (rec(d+1) on the partial ranges, one slab for the aligned centre, "
+          "direct descent when no cell boundary lies in the range) with the strengthened recursion precondition end - start < R_{d-1}, and the arithmetic lemmas of the lower "
+          "bound (a slab of level d lies in the centre, deeper slabs lie in one of the three parts because cells nest, no shallower slab fits) are discharged as pure integer "
+          "obligations; the counting / induction step combining them is a paper argument, cross-checked exhaustively against a DP optimum on small shapes (bounded)."),
     design_ref="DESIGN.md §4/C15",
     note=("narrow/view contracts assumed; recursion by contract; nonlinear integer arithmetic with explicit div/mod axiom instances; products of extents kept atomic; "
-          "minimality bounded only (numel <= 24 quick / 64 thorough, exhaustive); wrapper checked by run-time contract evaluation on all small shapes"),
+          "minimality: recurrence + arithmetic lemmas proved, counting/induction step cited (checks/c15.py docstring) and sampled exhaustively (numel <= 24 quick / 64 thorough); "
+          "wrapper checked by run-time contract evaluation on all small shapes"),
     technique=E2 + "; recursion by contract on the real nested code object, NIA with div/mod axiom instances, relational obligation for the two copies",
 )
 
